@@ -1598,3 +1598,31 @@ TABLE["C07"] += [
     B("unknown-dunder-name-gets-an-empty-body", {"V9"}, (PW, _DUNDER_TAIL, _DUNDER_TAIL + "        else:\n            function_call = \"\"\n")),
     N("unknown-dunder-name-raises", (PW, _DUNDER_TAIL, _DUNDER_TAIL + "        else:\n            raise ValueError(\"unsupported dunder method \" + method.name)\n")),
 ]
+
+# round 8 (continued)
+TABLE["C03"] += [
+    B("module-variable-drops-components-by-name", {"A7"}, (PW, "        sub_module_namespaces = namespaces[len(self.top_module_namespaces):]",
+                                                          "        sub_module_namespaces = [ns for ns in namespaces if ns not in self.top_module_namespaces]")),
+    B("sibling-of-the-top-namespace-accepted", {"A3"}, (PW, "        for i in range(min(len(namespaces1), len(namespaces2))):\n            if namespaces1[i] != namespaces2[i]:\n                return False\n        return True",
+                                                       "        if len(namespaces1) >= len(namespaces2):\n            return True\n        return namespaces1 == namespaces2[:len(namespaces1)]")),
+    N("prefix-test-by-slices", (PW, "        for i in range(min(len(namespaces1), len(namespaces2))):\n            if namespaces1[i] != namespaces2[i]:\n                return False\n        return True",
+                                "        n = min(len(namespaces1), len(namespaces2))\n        return namespaces1[:n] == namespaces2[:n]")),
+]
+TABLE["C08"] += [
+    B("namespace-is-a-sized-container", {"N9"}, (IP + "namespace.py", "    def top_level(self) -> \"Namespace\":", "    def __len__(self) -> int:\n        return len(self.content)\n\n    def top_level(self) -> \"Namespace\":")),
+    B("nested-argument-names-flattened-one-level", {"N10"}, (IP + "type.py", "        res = self.name\n        for instantiation in self.instantiations:\n            res += instantiation.instantiated_name()\n        return res",
+                                                            "        return self.name + \"\".join([inst.name for inst in self.instantiations])")),
+    N("nested-argument-names-by-join", (IP + "type.py", "        res = self.name\n        for instantiation in self.instantiations:\n            res += instantiation.instantiated_name()\n        return res",
+                                        "        return self.name + \"\".join([inst.instantiated_name() for inst in self.instantiations])")),
+]
+TABLE["C01"] += [
+    B("namespace-is-a-sized-container", {"G15"}, (IP + "namespace.py", "    def top_level(self) -> \"Namespace\":", "    def __len__(self) -> int:\n        return len(self.content)\n\n    def top_level(self) -> \"Namespace\":")),
+]
+TABLE["C15"] += [
+    B("ignore-entries-prefixed-with-the-top-namespace", {"X8"}, (MW, "        self.ignore_classes = ignore_classes\n", "        self.ignore_classes = [n if '::' in n else top_module_namespace + '::' + n for n in ignore_classes]\n")),
+    N("ignore-list-copied", (MW, "        self.ignore_classes = ignore_classes\n", "        self.ignore_classes = list(ignore_classes)\n")),
+]
+TABLE["C19"] += [
+    B("blank-lines-trimmed-by-an-ambiguous-regex", {"Z8"}, (IP + "module.py", "        return Module.rule.parseString(s)[0]", "        import re\n        s = re.sub(r'(\\s*\\n)+$', '\\n', s)\n        return Module.rule.parseString(s)[0]")),
+    N("blank-lines-trimmed-by-rstrip", (IP + "module.py", "        return Module.rule.parseString(s)[0]", "        s = s.rstrip() + '\\n'\n        return Module.rule.parseString(s)[0]")),
+]
